@@ -469,7 +469,7 @@ def run(rep: C.Report, tier: str) -> int:
     ccases, jcases, gcases = [], [], []     # (info, coq text)
 
     # ---------------- (A) stand-alone classes
-    nA = 45 if not big else 450
+    nA = 45 if not big else 300
     for k in range(nA):
         c, th, mode = gen_single(r, k)
         out = run_single(c, th, k % 3)
@@ -515,7 +515,7 @@ def run(rep: C.Report, tier: str) -> int:
                        f"({coq_comp(c)}, {qlist(th)}, {qlist(g2)}, {coq_bounds(bounds_frac(obj.bounds))}, {C.cq(0)})"))
 
     # ---------------- (B) JointPrior routing
-    nB = 220 if not big else 2500
+    nB = 220 if not big else 1800
     n_value_goals = 40 if not big else 300
     for k in range(nB):
         jc = gen_joint(r)
@@ -571,7 +571,7 @@ def run(rep: C.Report, tier: str) -> int:
             goal_info[gid] = ("B", k, jc, th, out)
 
     # ---------------- (C) Posterior = likelihood + prior
-    nC = 24 if not big else 240
+    nC = 24 if not big else 160
     from inference.posterior import Posterior
     for k in range(nC):
         lc = L5.gen_case(r, k)
@@ -626,7 +626,7 @@ def run(rep: C.Report, tier: str) -> int:
                 goal_info[gid] = info
 
     # ---------------- (D) generate_initial_guesses
-    nD = 30 if not big else 300
+    nD = 30 if not big else 200
     import inference.priors as P
     dtexts = []
     for k in range(nD):
